@@ -1187,3 +1187,124 @@ func ruleDescentComparesEveryLevel(c *Ctx, id string) {
 		}
 	})
 }
+
+// ---------------------------------------------------------------------------------------------
+// C09.R15 / C08.R10  reload-goes-through-read
+//
+// Reload(p) re-creates the free list from the committed freelist page after a failed commit. It must do so through
+// Read (which validates the page type, copies and SORTS the ids and resets the backend) and only then filter out the
+// still-pending ids with NoSyncReload(freePageIds()). Feeding the page's ids to NoSyncReload directly skips the sort
+// (the array backend and the span builder of the hash map assume sorted input) and the reset (seed C09e).
+func ruleReloadGoesThroughRead(c *Ctx, id string) {
+	c.rule(id, "reload-goes-through-read", 2, func() {
+		fn := c.fn("freelist.(*shared).Reload")
+		isRead := func(in ssa.Instruction) bool {
+			return isCallTo(in, "freelist.(*shared).Read", "freelist.Interface.Read", "freelist.ReadWriter.Read")
+		}
+		r := reach(nil, []*ssa.BasicBlock{fn.Blocks[0]}, isRead, nil)
+		bad := ""
+		for _, ret := range returnsOf(fn) {
+			if r[ret] {
+				bad = "Reload can return without having called Read"
+			}
+		}
+		c.check(id+":freelist.(*shared).Reload:via-Read", fn, fn.Pos(), "Reload re-reads the page with Read (type check, private sorted copy, backend reset) on every path", bad == "", bad)
+		bad = ""
+		n := 0
+		for _, ci := range callsIn(fn, "freelist.(*shared).NoSyncReload", "freelist.Interface.NoSyncReload") {
+			n++
+			ok := false
+			for _, l := range provenance(ci.Common().Args[len(ci.Common().Args)-1], provOpts{}) {
+				if l.Kind == "call" && (strings.HasSuffix(l.Name, ".freePageIds")) {
+					ok = true
+				}
+				if l.Kind == "call" && strings.HasSuffix(l.Name, "FreelistPageIds") {
+					ok = false
+					bad = "NoSyncReload is fed the page's own id slice (unsorted, not yet installed in the backend)"
+				}
+			}
+			if !ok && bad == "" {
+				bad = "NoSyncReload is not given the backend's free ids"
+			}
+			if r[ci.(ssa.Instruction)] {
+				bad = "NoSyncReload can run before Read"
+			}
+		}
+		c.check(id+":freelist.(*shared).Reload:filters-what-Read-installed", fn, fn.Pos(), "the pending ids are filtered out of the list Read installed (NoSyncReload(freePageIds()) after Read)", bad == "" && n >= 1, bad)
+	})
+}
+
+// ---------------------------------------------------------------------------------------------
+// C14.R9 / C12.R13  backup-meta-buffer-is-one-page
+//
+// WriteTo emits the two meta pages from one buffer and then the data from offset 2*pageSize. The buffer must be
+// exactly db.pageSize bytes: a constant (the default page size) is right only on databases whose page size happens to
+// equal it; on any other the copy's meta 1 does not start at page 1 and the data is shifted (seed C14e).
+func ruleBackupMetaBufferOnePage(c *Ctx, id string) {
+	c.rule(id, "backup-meta-buffer-is-one-page", 1, func() {
+		fn := c.fn("bbolt.(*Tx).WriteTo")
+		pageSizeF := c.dbField("pageSize")
+		n := 0
+		bad := ""
+		eachInstr(fn, func(in ssa.Instruction) {
+			mk, ok := in.(*ssa.MakeSlice)
+			if !ok {
+				return
+			}
+			if b, ok := mk.Type().Underlying().(*types.Slice); !ok || !isByte(b.Elem()) {
+				return
+			}
+			n++
+			fromField := false
+			for _, l := range provenance(mk.Len, provOpts{}) {
+				if l.Kind == "field" && pathOf(l.V).Last() == pageSizeF {
+					fromField = true
+				}
+			}
+			if _, isC := constInt(mk.Len); isC || !fromField {
+				bad = "the meta buffer made at " + c.P.Position(mk.Pos()) + " is not sized by db.pageSize"
+			}
+		})
+		c.check(id+":(*Tx).WriteTo:meta-buffer", fn, fn.Pos(), "the buffer the two meta pages are written from is db.pageSize bytes long", bad == "" && n >= 1, bad)
+	})
+}
+
+func isByte(t types.Type) bool {
+	b, ok := t.Underlying().(*types.Basic)
+	return ok && (b.Kind() == types.Byte || b.Kind() == types.Uint8)
+}
+
+// ---------------------------------------------------------------------------------------------
+// C19.R8  every-nested-bucket-is-checked
+//
+// recursivelyCheckBucket must descend into EVERY nested bucket, inline ones included: an inline bucket owns no
+// pages, but its embedded page is checked like any other (type, key order). The decision to descend may depend on
+// the entry being a bucket and on the bucket opening — never on the SIZE of the entry's value (seed C19e skips
+// every entry longer than the bare header, i.e. all inline buckets).
+func ruleEveryNestedBucketChecked(c *Ctx, id string) {
+	c.rule(id, "every-nested-bucket-is-checked", 1, func() {
+		fn := c.fn("bbolt.(*Tx).recursivelyCheckBucket")
+		var recs []*ssa.Call
+		for _, f := range withAnons(fn) {
+			recs = append(recs, plainCallsIn(f, "bbolt.(*Tx).recursivelyCheckBucket")...)
+		}
+		bad := ""
+		if len(recs) == 0 {
+			bad = "nested buckets are not checked recursively"
+		}
+		for _, rc := range recs {
+			conds := controllingConds(rc)
+			for _, cv := range append([]ssa.Value{}, conds...) {
+				conds = append(conds, shortCircuitConds(cv)...)
+			}
+			for _, cv := range conds {
+				for _, l := range provenance(cv, provOpts{ThroughCall: throughAll}) {
+					if l.Kind == "call" && l.Name == "builtin:len" {
+						bad = "whether a nested bucket is checked depends on a length at " + c.P.Position(rc.Pos()) + ": inline buckets (whose value is longer than the bare header) are skipped"
+					}
+				}
+			}
+		}
+		c.check(id+":(*Tx).recursivelyCheckBucket:descends-into-every-bucket", fn, fn.Pos(), "the recursive check of a nested bucket is not conditioned on the size of its entry", bad == "", bad)
+	})
+}
